@@ -395,15 +395,24 @@ func init() {
 
 	windows := []core.Window{core.Range(10000, 30000, 12), core.Instant(45000), core.Range(0, 45000, 3)}
 
+	// thorough: also four batches (the exchange buffers fill up) and a window that starts
+	// before the data with a step that is not a multiple of the scrape interval
+	deep := func(c *check.Ctx) []core.Window {
+		if c.Thorough() {
+			return append(append([]core.Window(nil), windows...), core.Range(10000, 30000, 35), core.Range(-60000, 17000, 21))
+		}
+		return windows
+	}
+
 	check.Register("C13/fault", func(c *check.Ctx) {
-		enumerateFaults(c, "C13", "C13/fault", panicKinds, []string{"panic-runtime", "panic-nil"}, c13Oracle, windows, true)
+		enumerateFaults(c, "C13", "C13/fault", panicKinds, []string{"panic-runtime", "panic-nil"}, c13Oracle, deep(c), true)
 	})
 	check.Register("C15/fault", func(c *check.Ctx) {
-		enumerateFaults(c, "C15", "C15/fault", errorKinds, []string{"error"}, c15Oracle, windows, true)
+		enumerateFaults(c, "C15", "C15/fault", errorKinds, []string{"error"}, c15Oracle, deep(c), true)
 		c15Pairs(c)
 	})
 	check.Register("C17/fault", func(c *check.Ctx) {
-		enumerateFaults(c, "C17", "C17/fault", allKinds, []string{"error", "panic-runtime", "cancel"}, c17Oracle, windows, false)
+		enumerateFaults(c, "C17", "C17/fault", allKinds, []string{"error", "panic-runtime", "cancel"}, c17Oracle, deep(c), false)
 		c17Histories(c)
 		c17Labels(c)
 	})
